@@ -99,6 +99,10 @@ type World struct {
 	userData     map[string]any // scratch for intrinsic models
 	started      []*Thread
 	lastPanicLoc string
+	subs         []*subCtx
+	knownTrue    map[string]bool
+	noSchedObjs  map[*syncObj]bool
+	inSummary    map[*ssa.Function]bool
 	concrete     map[string]any // concrete re-execution: input values by name
 }
 
@@ -119,6 +123,10 @@ func (w *World) unsupported(format string, args ...any) unsupportedErr {
 
 func (w *World) assertPC(t *Term) {
 	w.pc = append(w.pc, t)
+	if w.knownTrue == nil {
+		w.knownTrue = map[string]bool{}
+	}
+	w.knownTrue[t.S] = true
 	w.sol.Send("(assert " + t.S + ")")
 }
 
@@ -134,7 +142,17 @@ func (w *World) branch(c Value) bool {
 	if t == termFalse {
 		return false
 	}
+	if len(w.subs) > 0 {
+		return w.subBranch(t)
+	}
 	nt := w.not(t).(*Term)
+	// syntactic shortcut: the condition (or its negation) is already a conjunct of the path condition
+	if w.knownTrue[t.S] {
+		return true
+	}
+	if w.knownTrue[nt.S] {
+		return false
+	}
 	if w.pos < len(w.prefix) {
 		d := w.prefix[w.pos]
 		if d.K != DBranch {
@@ -189,6 +207,9 @@ func (w *World) branch(c Value) bool {
 func (w *World) choose(n int, kind DecKind) int {
 	if n <= 1 {
 		return 0
+	}
+	if len(w.subs) > 0 {
+		panic(w.unsupported("nondeterministic choice inside a summarised function"))
 	}
 	if w.pos < len(w.prefix) {
 		d := w.prefix[w.pos]
@@ -373,8 +394,8 @@ func (w *World) reportViolation(kind, label, extra string) {
 		}
 		matched = true
 		knownDesc = k.What
-		if k.AssumeAway != "" {
-			conj = append(conj, "(not "+k.AssumeAway+")")
+		if len(k.WhenAny) > 0 {
+			conj = append(conj, "(not "+w.whenAnySMT(k.WhenAny)+")")
 		} else {
 			conj = append(conj, "false")
 		}
@@ -409,6 +430,9 @@ func (w *World) reportViolation(kind, label, extra string) {
 
 // vAssert implements vrt.Assert.
 func (w *World) vAssert(c Value, label string) {
+	if len(w.subs) > 0 {
+		panic(w.unsupported("Assert inside a summarised function"))
+	}
 	if b, ok := c.(bool); ok {
 		if !b {
 			w.reportViolation("assert", label, "")
@@ -429,6 +453,8 @@ func (w *World) vAssert(c Value, label string) {
 			panic(pathEnd{kind: "violation", msg: label})
 		}
 		w.assertPC(t)
+	case "dead":
+		panic(unsupportedErr{"solver died on assertion " + label})
 	default:
 		w.unknowns++
 		w.inconc = "solver " + r + " on assertion " + label
@@ -438,6 +464,9 @@ func (w *World) vAssert(c Value, label string) {
 
 // vAssume implements vrt.Assume.
 func (w *World) vAssume(c Value) {
+	if len(w.subs) > 0 {
+		panic(w.unsupported("Assume inside a summarised function"))
+	}
 	if b, ok := c.(bool); ok {
 		if !b {
 			panic(pathEnd{kind: "assume"})
@@ -451,6 +480,9 @@ func (w *World) vAssume(c Value) {
 		return
 	}
 	r := w.sol.Check(t.S, false)
+	if r == "dead" {
+		panic(unsupportedErr{"solver died"})
+	}
 	if r == "unsat" {
 		panic(pathEnd{kind: "assume"})
 	}
@@ -532,4 +564,75 @@ func isPkgInit(fn *ssa.Function) bool {
 
 func isExplicitInit(fn *ssa.Function) bool {
 	return fn.Pkg != nil && strings.HasPrefix(fn.Name(), "init#") && fn.Parent() == nil
+}
+
+// whenAnySMT renders a known finding's input predicate over the inputs that exist on this path.
+func (w *World) whenAnySMT(alts []map[string][]int64) string {
+	byName := map[string]*inputVar{}
+	for _, in := range w.inputs {
+		byName[in.name] = in
+	}
+	var ors []string
+	for _, alt := range alts {
+		names := make([]string, 0, len(alt))
+		for n := range alt {
+			names = append(names, n)
+		}
+		sort.Strings(names)
+		var ands []string
+		ok := true
+		for _, n := range names {
+			in := byName[n]
+			if in == nil {
+				ok = false
+				break
+			}
+			var eqs []string
+			for _, v := range alt[n] {
+				if in.term == nil {
+					c, _ := in.conc.(int64)
+					if c == v {
+						eqs = append(eqs, "true")
+					}
+					continue
+				}
+				switch in.term.Sort.K {
+				case SBV:
+					eqs = append(eqs, "(= "+in.term.S+" "+bvLit(uint64(v), in.term.Sort.W)+")")
+				case SBool:
+					if v != 0 {
+						eqs = append(eqs, in.term.S)
+					} else {
+						eqs = append(eqs, "(not "+in.term.S+")")
+					}
+				}
+			}
+			switch len(eqs) {
+			case 0:
+				ands = append(ands, "false")
+			case 1:
+				ands = append(ands, eqs[0])
+			default:
+				ands = append(ands, "(or "+strings.Join(eqs, " ")+")")
+			}
+		}
+		if !ok {
+			continue
+		}
+		switch len(ands) {
+		case 0:
+			ors = append(ors, "true")
+		case 1:
+			ors = append(ors, ands[0])
+		default:
+			ors = append(ors, "(and "+strings.Join(ands, " ")+")")
+		}
+	}
+	switch len(ors) {
+	case 0:
+		return "false"
+	case 1:
+		return ors[0]
+	}
+	return "(or " + strings.Join(ors, " ") + ")"
 }
